@@ -191,7 +191,7 @@ def run_family(prop, invs, props, tier, seed, focus=None, signature_prefix="fami
             "%sreplay:%s:%s:%s" % (signature_prefix, op, sub, m.detail.split(":")[0]),
             "spec->code (schema #%s of the family): %s on the real Config differs from the specification: %s"
             % (m.init.get("sid") if isinstance(m.init, dict) else "?", cfgmachine.brief(m.ev), m.detail[:300]),
-            m.to_json(),
+            dict(m.to_json(), schema=descs.get(m.init.get("sid")) if isinstance(m.init, dict) else None, focus=focus),
         )
     # 4. code -> spec on sampled schemas
     rng = random.Random(seed * 7919 + 11)
